@@ -1751,7 +1751,7 @@ TIERS = {
     # of its first throw_k suspensions, exploring up to throw_runs branch vectors each.
     "quick": dict(special_stride=12, matrix_stride=53, enum={2: 1, 3: 12}, random=26, max_nodes=(6, 12), max_runs=24,
                   throw_every=3, throw_k=8, throw_runs=6, running_stride=5, deadline=36.0),
-    "thorough": dict(matrix_stride=2, enum={2: 1, 3: 1, 4: 6}, random=400, max_nodes=(5, 14), max_runs=48,
+    "thorough": dict(matrix_stride=3, enum={2: 1, 3: 1, 4: 6}, random=400, max_nodes=(5, 14), max_runs=48,
                      throw_every=2, throw_k=6, throw_runs=6, running_stride=4, deadline=440.0),
     "tiny": dict(special_stride=60, matrix_stride=211, enum={2: 4}, random=4, max_nodes=(5, 8), max_runs=8,
                  throw_every=4, throw_k=8, throw_runs=4, running_stride=1, deadline=20.0),
